@@ -7,6 +7,7 @@ import os
 import signal
 
 from harness import core, tables_io
+from harness import objs
 from harness import coder_io as C
 from harness import coderprops as P
 
@@ -174,7 +175,7 @@ def impl_scan(s, info_only=False, continue_on_error=False, filter_expr=None, ign
     err = io.StringIO()
     try:
         with contextlib.redirect_stderr(err):
-            gen = generate_bufr_message(Decoder(), s, info_only=info_only, continue_on_error=continue_on_error,
+            gen = generate_bufr_message(objs.decoder(), s, info_only=info_only, continue_on_error=continue_on_error,
                                         filter_expr=filter_expr, wire_template_data=False,
                                         ignore_value_expectation=ignore_expect)
             for m in (itertools.islice(gen, limit) if limit else gen):
